@@ -13,6 +13,7 @@
 //                                    a link assigned twice answers with the LAST target
 //     seq <impl> <pattern> [view] -> one Sequence implementation: size, empty, positional access at 0..size+2 and SIZE_MAX,
 //                                    forward / backward iteration, dereference of end() and of --begin()
+//     lookup <scope> <pattern>    -> look-ups by name in a scope whose members may have names that cannot be read (c14seq.cxx)
 //     optional <0|1>              -> Optional<T>::get() and util::ref<T>::get() on an empty / engaged object
 //   A child that dies prints nothing; the parent then prints `<op echo> : !CRASH status=<n>` and goes on.
 //
@@ -251,6 +252,11 @@ int main(int argc, char** argv)
          is >> impl_name >> pattern >> view;
          in_child([&] { return seq_op(c, impl_name, pattern, view.empty() ? "decl" : view); },
                   "seq " + impl_name + " " + pattern + (view.empty() ? "" : " " + view));
+      }
+      else if (op == "lookup") {
+         std::string scope_kind, pattern;
+         is >> scope_kind >> pattern;
+         in_child([&] { return lookup_op(c, scope_kind, pattern); }, "lookup " + scope_kind + " " + pattern);
       }
       else if (op == "optional") {
          std::string b;
